@@ -252,6 +252,8 @@ def run(ctx, rep):
     prov_rules(facts, rep)
     mode_rules(facts, rep)
     content_rules(facts, rep)
+    from rules.C10 import drain_rules
+    drain_rules(facts, rep)            # reported as C07/C10-DRAIN: the streaming extractor reaches the next entry only if drop() drained this one
     # dependency on C06
     ok6 = C06.enclosed_rules(facts, rep)
     if not ok6:
